@@ -275,3 +275,42 @@ def is_plain_iter(p: Program, it) -> bool:
     if isinstance(it, (ast.ListComp, ast.GeneratorExp, ast.SetComp)):
         return False
     return True
+
+
+# ---------------------------------------------------------------------- shared rules between properties
+_sub_cache = {}
+_depth = [0]
+
+
+def include_rules(report, p, modname: str, ids, why: str):
+    """run another property's rule module and adopt the listed rules (unchanged ids) into this report.
+    A property whose statement depends on a mechanism that another property's rules decide (e.g. routing, hashing)
+    lists those rules too, so that breaking the mechanism is reported under every property it breaks."""
+    import importlib
+
+    from sa.rules import Report
+
+    if _depth[0] > 0:
+        return  # includes are resolved for the property being checked only, not transitively
+    key = (id(p), modname)
+    if key not in _sub_cache:
+        mod = importlib.import_module("props." + modname)
+        sub = Report(modname.upper(), report.tier, p)
+        _depth[0] += 1
+        try:
+            mod.run(sub, p)
+        finally:
+            _depth[0] -= 1
+        _sub_cache[key] = sub
+    sub = _sub_cache[key]
+    have = {r.id for r in report.rules}
+    for rr in sub.rules:
+        if rr.id in ids and rr.id not in have:
+            import copy
+
+            r2 = copy.copy(rr)
+            r2.notes = list(rr.notes) + [f"shared rule of {modname.upper()} included because {why}"]
+            report.rules.append(r2)
+    missing = set(ids) - {r.id for r in sub.rules}
+    if missing:
+        raise AnalysisError(f"shared rules {sorted(missing)} not produced by {modname}")
